@@ -209,15 +209,36 @@ def scope_kind(s1, s2):
 
 
 # ---------------------------------------------------------------- one case of each operation
-def check_set(part, scope, flat, ai, form, value):
-    """set_value_for_assignment on one (table, assignment, call form, value).  Returns what was observed."""
+def build_from(scope, flat, origin):
+    """The relation under test as the library itself produces it: 'zero' = NAryMatrixRelation(variables) without a table
+    (all-zero tables only), 'join' = join(table relation, zero relation over the same scope), 'proj' = projection of a
+    relation over scope + one more variable whose two slices both equal the table."""
+    from pydcop.dcop.relations import NAryMatrixRelation, join, projection
+
     rel, ref = build(scope, flat, "r")
+    if origin == "zero":
+        return NAryMatrixRelation([var(v) for v in scope], name="r"), ref
+    if origin == "join":
+        return join(rel, NAryMatrixRelation([var(v) for v in scope], name="z")), ref
+    extra = [v for v in DOMS if v not in scope][0]
+    big = NAryMatrixRelation([var(v) for v in scope] + [var(extra)], nested([e for e in flat for _ in DOMS[extra]], [len(DOMS[v]) for v in scope] + [len(DOMS[extra])]), name="b")
+    return projection(big, var(extra), "min"), ref
+
+
+def check_set(part, scope, flat, ai, form, value, origin="table"):
+    """set_value_for_assignment on one (table, assignment, call form, value).  Returns what was observed."""
+    if origin == "table":
+        rel, ref = build(scope, flat, "r")
+    else:
+        rel, ref = build_from(scope, flat, origin)
+        if [v.name for v in rel.dimensions] != list(scope):
+            return {"skipped": "dimension order of the derived relation differs"}
     asgs = assignments(scope)
     target = asgs[ai]
     pairs = list(zip(scope, target))
     arg = list(target) if form == "list" else dict(pairs) if form == "dict" else dict(reversed(pairs))
-    case = {"op": "set", "scope": scope, "table": [enc(e) for e in flat], "ai": ai, "form": form, "value": enc(value)}
-    call = f"NAryMatrixRelation({scope}, {show(scope, flat)}).set_value_for_assignment({arg!r}, {value!r})"
+    case = {"op": "set", "scope": scope, "table": [enc(e) for e in flat], "ai": ai, "form": form, "value": enc(value), "origin": origin}
+    call = f"NAryMatrixRelation({scope}, {show(scope, flat)}){'' if origin == 'table' else ' [obtained by ' + origin + ']'}.set_value_for_assignment({arg!r}, {value!r})"
     int_table_float_value = all(type(e) is int for e in flat) and (value == INF or value != int(value))
     before = rel._m.tobytes()
     try:
@@ -236,12 +257,12 @@ def check_set(part, scope, flat, ai, form, value):
     if new is rel:
         part.violation("set_value|same-object-returned", f"{call} returned the relation itself, not a new one", case)
     if rel._m.tobytes() != before or any(not close(got_old[a], ref[a]) for a in asgs):
-        part.violation(f"set_value|original-modified|form={f}",
+        part.violation(f"set_value|original-modified|form={f}" + ("" if origin == "table" else "|origin=" + origin),
                        f"{call} changed the original: now {[got_old[a] for a in asgs]}, was {list(flat)}", case)
     if got_new is None:
         part.violation("set_value|dimensions-changed", f"{call} has dimensions {names}, original {scope}", case)
         return {"dimensions": names}
-    if new.name != rel.name:
+    if new.name != rel.name and origin == "table":
         part.violation("set_value|name-changed", f"{call} is named {new.name!r}, original {rel.name!r}", case)
     others = [a for a in asgs if a != target and not close(got_new[a], ref[a])]
     if others:
@@ -354,6 +375,15 @@ def shard(item):
                             part.nontriv(("set", idx, ti, ai))
                         new = obs.get("new")
                         part.outcome(("set", idx, form, enc(value), summary(new) if new else sorted(obs)))
+                # the same update on relations the library produced itself (a table it allocated, a join, a projection)
+                if all(e != INF for e in flat) and (ti % 16 == 0 or not any(flat)):
+                    for origin in ("join", "proj") + (("zero",) if not any(flat) else ()):
+                        for form in ("list", "dict"):
+                            for value in (E[1], E[3]):
+                                obs = check_set(part, scope, flat, ai, form, value, origin)
+                                part.count("evaluations")
+                                part.count("set_cases_on_derived_relations")
+                                part.outcome(("set", idx, origin, form, enc(value), sorted(obs)[:2]))
     elif op == "proj":
         scope, kind = spec
         n = ncells(scope)
@@ -463,7 +493,7 @@ def run(ctx):
 def replay(case):
     part = Part()
     if case["op"] == "set":
-        obs = check_set(part, list(case["scope"]), tuple(dec(e) for e in case["table"]), case["ai"], case["form"], dec(case["value"]))
+        obs = check_set(part, list(case["scope"]), tuple(dec(e) for e in case["table"]), case["ai"], case["form"], dec(case["value"]), case.get("origin", "table"))
     elif case["op"] == "join":
         obs = check_join(part, list(case["s1"]), tuple(dec(e) for e in case["t1"]), list(case["s2"]), tuple(dec(e) for e in case["t2"]))
     else:
